@@ -99,11 +99,11 @@ PROPS = {
                                       "RModel.BSet.mem_inter", "RModel.BSet.mem_xor", "RModel.BSet.canon_ext"] + L2_ITER,
             "owns": {"it", "rit", "mit", "uit", "reinit", "hasnext", "next?", "next!", "peek?", "peek!", "adv", "advrel", "many",
                      "manyhs", "drain", "iterate", "values", "backward", "unset", "ranges", "l2it", "l2reinit"}},
-    "C05": {"suites": [("ser", 1.0), ("thresh", 1.0)],
+    "C05": {"suites": [("ser", 1.0), ("thresh", 1.0), ("serall", 1.0)],
             "theorems": ["RModel.Impl.encode_length", "RModel.Impl.decode_encode", "RModel.Impl.prefix_rejected",
                          "RModel.Impl.decode_no_panic", "RModel.Impl.roundtrip_wf", "RModel.BSet.canon_ext"] + F_SERIAL,
             "modules": DEFAULT_MODULES + [FACTS, "RProofs.Properties.C05"],
-            "owns": {"ser", "rd", "wrfail", "wrfailall", "rdsplit", "trunc", "wf", "dig", "add", "or", "mkrepr"}},
+            "owns": {"ser", "rd", "wrfail", "wrfailall", "rdsplit", "trunc", "wf", "dig", "add", "or", "mkrepr", "card", "addstride"}},
     "C06": {"suites": [("spec", 1.0)],
             "theorems": ["RModel.FormatSpec.encode_conforms", "RModel.FormatSpec.conformant_decodes", "RModel.BSet.canon_ext"] + F_SERIAL,
             "modules": DEFAULT_MODULES + [FACTS, "RProofs.Properties.C06"], "owns": {"spec", "ser", "card", "toarr"}},
